@@ -78,6 +78,8 @@ def build():
     # ---- counter
     CTR = {'counter': {'type': 'struct.nsync_counter_s_', 'count': 1}}
     for R in (3, 4):
+        add('ctr_dec2_wait', 'counter_basic.c', ['dec_twice', 'waiter', 'setup', 'final_check'], R, CV_UNITS, ninit=1, nfinal=1, pools=dict(CTR), excl=NOTE_FN + CVW_FN, timeout=3000)
+        add('ctr_dec2_timed', 'counter_basic.c', ['dec_twice', 'waiter_timed', 'setup', 'final_check'], R, CV_UNITS, ninit=1, nfinal=1, pools=dict(CTR), excl=NOTE_FN + CVW_FN, timeout=3000)
         add('ctr_dec_dec_wait', 'counter_basic.c', ['dec', 'dec', 'waiter', 'setup', 'final_check'], R, CV_UNITS, ninit=1, nfinal=1, pools=dict(CTR), excl=NOTE_FN + CVW_FN, timeout=6000)
         add('ctr_dec_dec_timed', 'counter_basic.c', ['dec', 'dec', 'waiter_timed', 'setup', 'final_check'], R, CV_UNITS, ninit=1, nfinal=1, pools=dict(CTR), excl=NOTE_FN + CVW_FN, timeout=6000)
         add('ctr_dec_dec_reader', 'counter_basic.c', ['dec', 'dec', 'reader', 'setup', 'final_check'], R, CV_UNITS, ninit=1, nfinal=1, pools=dict(CTR), excl=NOTE_FN + CVW_FN, timeout=6000)
@@ -113,6 +115,10 @@ def build():
         add('wn_cvctr_bcastafter', 'waitn_basic.c', ['waitn_cv_ctr', 'broadcaster_after', 'setup_ctr', 'final_ready_again_noted'], R, CV_UNITS, ninit=1, nfinal=1, pools=dict(WC), unroll=WNU, excl=NOTE_FN, timeout=6000)
         add('wn_ctr_dec', 'waitn_basic.c', ['waitn_ctr', 'decrementer', 'setup_ctr', 'final_ready_again_noted'], R, CV_UNITS, ninit=1, nfinal=1, pools=dict(WC), unroll=WNU, excl=NOTE_FN + CVW_FN, timeout=6000)
         add('wn_cvctr_plain_signaller', 'waitn_basic.c', ['waitn_cv_ctr', 'plain_cv_waiter', 'signaller', 'setup_ctr', 'final_ready_again_noted'], R, CV_UNITS, ninit=1, nfinal=1, pools=dict(WC), unroll=WNU, excl=NOTE_FN, timeout=9000)
+    for R in (2, 3, 4):
+        add('wn_cv_sigafter', 'waitn_basic.c', ['waitn_cv', 'signaller_after', 'final_cv_again'], R, CV_UNITS, nfinal=1, unroll=WNU, excl=NOTE_FN + CTR_FN, timeout=6000)
+        add('wn_cv_bcastafter', 'waitn_basic.c', ['waitn_cv', 'broadcaster_after', 'final_cv_again'], R, CV_UNITS, nfinal=1, unroll=WNU, excl=NOTE_FN + CTR_FN, timeout=6000)
+        add('wn_cv_signaller', 'waitn_basic.c', ['waitn_cv', 'signaller', 'final_cv_again'], R, CV_UNITS, nfinal=1, unroll=WNU, excl=NOTE_FN + CTR_FN, timeout=6000)
     # ---- refcount (C13)
     OBJ = {'obj': {'type': 'struct.obj', 'count': 1}}
     for R in (3, 4, 5):
